@@ -26,5 +26,6 @@ for name, comp in vcheck.load_components().items():
     out[name + '#functions'] = sorted(spec.signatures_of(text))
     out[name + '#statics'] = sorted(meta.get('storage', {}))
     out[name + '#locals'] = {f: p for f, p in spec.locals_of(text).items() if keep(f) and p}
+out['#conditionals'] = vcheck.conditional_directives()
 json.dump(out, open(os.path.join(ROOT, 'contracts', 'signatures.json'), 'w'), indent=1, sort_keys=True)
 print({k: len(v) for k, v in out.items()})
